@@ -209,6 +209,17 @@ def run_feat(ctx, idx, S):
             S.creg[id(lcl)] = (lcl, cmodel)
         cidx = {"h5": np.arange(n), "child": pidx1, "gchild": pidx2}
         first_results = {}
+        # a small menu of dataset-level KDE / downsampling calls, so that repetitions occur
+        menu = []
+        for _ in range(int(rng.integers(4, 9))):
+            an = str(rng.choice(["h5", "child", "gchild", "basin_mapped", "basin_same"]))
+            xax, yax = (K_FEATS if rng.random() < 0.5 else K_FEATS[::-1])
+            menu.append((an, str(rng.choice(["scatter", "contour", "downsample"])), xax, yax,
+                         str(rng.choice(["histogram", "gauss", "multivariate", "none"])),
+                         str(rng.choice(["linear", "linear", "log"])),
+                         bool(rng.random() < 0.3),
+                         int(rng.choice([0, 3, max(1, len(actors[an][0]) // 2)])),
+                         bool(rng.random() < 0.5), bool(rng.random() < 0.5)))
         n_ops = int(rng.integers(60, 151))
         wrote = set()
         nontrivial = False
@@ -304,14 +315,10 @@ def run_feat(ctx, idx, S):
                         M.apply_write(S.chandles[-1], wop)
             else:
                 # ------------------------------------------------ KDE / downsampling
-                an = str(rng.choice(["h5", "child", "gchild", "basin_mapped", "basin_same"]))
+                an, meth, xax, yax, kt, xs, pos, dsamp, ri, rm = \
+                    menu[int(rng.integers(0, len(menu)))]
                 ds = actors[an][0]
-                xax, yax = (K_FEATS if rng.random() < 0.5 else K_FEATS[::-1])
-                meth = str(rng.choice(["scatter", "contour", "downsample"]))
-                kt = str(rng.choice(["histogram", "gauss", "multivariate", "none"]))
-                xs = str(rng.choice(["linear", "linear", "log"]))
                 if meth == "scatter":
-                    pos = bool(rng.random() < 0.3)
                     key = (an, meth, xax, yax, kt, xs, pos)
                     kw = dict(xax=xax, yax=yax, kde_type=kt, xscale=xs)
                     if pos:
@@ -328,9 +335,6 @@ def run_feat(ctx, idx, S):
                     def fn(ds=ds, kw=kw):
                         return ds.get_kde_contour(**kw)
                 else:
-                    dsamp = int(rng.choice([0, 3, max(1, len(ds) // 2)]))
-                    ri = bool(rng.random() < 0.5)
-                    rm = bool(rng.random() < 0.5)
                     key = (an, meth, xax, yax, dsamp, xs, ri, rm)
                     kw = dict(xax=xax, yax=yax, downsample=dsamp, xscale=xs,
                               remove_invalid=ri, ret_mask=rm)
